@@ -363,6 +363,8 @@ def main_dispatch(argv: list[str]) -> int:
         print(f"no check for {prop}: {ex}", file=sys.stderr)
         return 2
     ctx = Ctx(prop=prop, tier=a.tier, seed=a.seed)
+    if not a.replay:
+        shutil.rmtree(REPLAYS / prop, ignore_errors=True)  # replay files of earlier runs are stale
     try:
         if a.replay:
             return mod.replay(ctx, json.loads(Path(a.replay).read_text()))
